@@ -104,6 +104,7 @@ type Node struct {
 	Say     int  // > 0: the command prints that many bytes WITHOUT a newline on its standard output (a progress bar)
 	Head    int  // > 0: the command reads only the first Head bytes of each input and closes it (head -c)
 	TouchIn bool // the command re-writes its first input in place (same bytes, later mtime)
+	BgLate  bool // the command returns at once; a helper it leaves behind creates the first output only later
 	BgTail  bool // the command returns while a child of it still writes the rest of the first output
 	// TagArgs: "port.key" names of tags (scipipe qualifies a task's tags with the
 	// in-port they arrived on) whose values the command receives through
